@@ -46,7 +46,7 @@ def make_cases(rng, tier):
     cases = []
     n = 0
     for name, (text, susp) in ENDLESS.items():
-        for hist in ("alone", "then-short", "after-idle", "short-first"):
+        for hist in ("alone", "then-short", "after-idle", "short-first", "then-eval"):
             runs = []
             kinds = []
             def endless_run(adv=0):
@@ -55,7 +55,13 @@ def make_cases(rng, tier):
             def short_run(adv=0, k=6):
                 runs.append({"advance_ms": adv, "scripts": [{"name": "s", "text": short_script(k), "suspend": False}]})
                 kinds.append(("short", k))
-            if hist == "alone":
+            def short_eval(adv=0, k=4):
+                # the embedder evaluates an expression (runtime::evaluate_expression, what __EVAL uses while the next script is preprocessed)
+                runs.append({"advance_ms": adv, "eval": short_script(k) + "1"})
+                kinds.append(("short", k))
+            if hist == "then-eval":
+                endless_run(); short_eval(); short_run(); short_eval(adv=MAXMS * 2)
+            elif hist == "alone":
                 endless_run()
             elif hist == "then-short":
                 endless_run(); short_run()
@@ -72,6 +78,10 @@ def make_cases(rng, tier):
             n += 1
             runs = [{"advance_ms": gap, "scripts": [{"name": "s", "text": short_script(k), "suspend": rng.random() < 0.5}]} for _ in range(3)]
             cases.append({"id": "gap%d-%d-%d" % (n, gap, k), "runs": runs, "kinds": [("short", k)] * 3,
+                          "conf": {"max_runtime_ms": MAXMS, "clock": {"start_ms": 5000, "tick_us": 1000}}})
+            n += 1
+            runs = [{"advance_ms": gap, "eval": short_script(k) + "1"}, {"advance_ms": gap, "scripts": [{"name": "s", "text": short_script(k), "suspend": False}]}, {"advance_ms": gap, "eval": short_script(k) + "1"}]
+            cases.append({"id": "gapeval%d-%d-%d" % (n, gap, k), "runs": runs, "kinds": [("short", k)] * 3,
                           "conf": {"max_runtime_ms": MAXMS, "clock": {"start_ms": 5000, "tick_us": 1000}}})
         # short runs that sleep for a fraction of the limit (the deadline is also polled while everything sleeps)
         n += 1
@@ -199,6 +209,6 @@ def run(rep, tier, seed, replay):
         if not bad2:
             rep.notes.append("rejection %s of %s did not repeat" % (key, b["id"]))
             continue
-        rep.finding(key, "%s (%s): runs %s" % (b["why"], b["op"], [[s["text"] for s in r["scripts"]] for r in case["runs"]]),
+        rep.finding(key, "%s (%s): runs %s" % (b["why"], b["op"], [[s["text"] for s in r["scripts"]] if "scripts" in r else ["eval: " + r["eval"]] for r in case["runs"]]),
                     {"property": "C11", "key": key, "case": case, "records": ex2[0][1], "verdict": bad2})
         rep.found[key]["count"] += len(bs) - 1
